@@ -11,6 +11,8 @@
 #include <AIToolbox/MDP/MaximumLikelihoodModel.hpp>
 #include <AIToolbox/MDP/SparseMaximumLikelihoodModel.hpp>
 #include <AIToolbox/Bandit/Experience.hpp>
+#include <AIToolbox/Factored/MDP/CooperativeExperience.hpp>
+#include <AIToolbox/Factored/MDP/CooperativeMaximumLikelihoodModel.hpp>
 #include "vio.hpp"
 
 using namespace AIToolbox;
@@ -97,6 +99,72 @@ static void runMdp(vio::Cursor & c, vio::Out & o) {
     }
 }
 
+// ---- cooperative (factored) experience and maximum-likelihood model
+namespace fm = AIToolbox::Factored::MDP;
+namespace af = AIToolbox::Factored;
+
+static void dumpCoopExp(const fm::CooperativeExperience & exp, vio::Out & o) {
+    const auto & S = exp.getS();
+    o << (size_t) exp.getTimesteps();
+    for (size_t i = 0; i < S.size(); ++i) {
+        const auto & v = exp.getVisitsTable()[i];
+        for (long j = 0; j < v.rows(); ++j) {
+            for (size_t c = 0; c <= S[i]; ++c) o << (size_t) v(j, c);
+            o << exp.getRewardMatrix()[i][j] << exp.getM2Matrix()[i][j];
+        }
+    }
+}
+static void dumpCoopModel(const fm::CooperativeMaximumLikelihoodModel & m, vio::Out & o) {
+    const auto & S = m.getS();
+    const auto & T = m.getTransitionFunction().transitions;
+    for (size_t i = 0; i < S.size(); ++i)
+        for (long j = 0; j < T[i].rows(); ++j) {
+            for (size_t c = 0; c < S[i]; ++c) o << T[i](j, c);
+            o << m.getRewardFunction()[i][j];
+        }
+}
+template <typename V> static V readVec(vio::Cursor & c, size_t n) { V v(n); for (size_t k = 0; k < n; ++k) v[k] = c.nextSize(); return v; }
+
+static void runCoop(vio::Cursor & c, vio::Out & o) {
+    auto Sv = c.nextSizes(); auto Av = c.nextSizes();
+    af::State S(Sv.begin(), Sv.end()); af::Action A(Av.begin(), Av.end());
+    af::DDNGraph graph(S, A);
+    for (size_t i = 0; i < S.size(); ++i) {
+        af::DDNGraph::ParentSet ps;
+        auto ag = c.nextSizes(); ps.agents.assign(ag.begin(), ag.end());
+        size_t nf = c.nextSize();
+        for (size_t k = 0; k < nf; ++k) { auto f = c.nextSizes(); ps.features.emplace_back(f.begin(), f.end()); }
+        graph.push(std::move(ps));
+    }
+    fm::CooperativeExperience exp(graph);
+    std::vector<std::unique_ptr<fm::CooperativeMaximumLikelihoodModel>> models;
+    fm::CooperativeExperience::Indeces last(S.size(), 0);
+    const size_t nops = c.nextSize();
+    for (size_t n = 0; n < nops; ++n) {
+        const std::string op = c.next();
+        if (op == "r") {
+            auto s = readVec<af::State>(c, S.size()); auto a = readVec<af::Action>(c, A.size());
+            auto s1 = readVec<af::State>(c, S.size());
+            af::Rewards rw(S.size()); for (size_t k = 0; k < S.size(); ++k) rw[k] = c.nextDouble();
+            last = exp.record(s, a, s1, rw);
+            for (auto id : last) o << id;
+            for (size_t i = 0; i < S.size(); ++i) {
+                const auto id = last[i];
+                o << (size_t) exp.getVisitsTable()[i](id, s1[i]) << (size_t) exp.getVisitsTable()[i](id, S[i])
+                  << exp.getRewardMatrix()[i][id] << exp.getM2Matrix()[i][id];
+            }
+            o << (size_t) exp.getTimesteps();
+        } else if (op == "z") { exp.reset(); dumpCoopExp(exp, o); }
+        else if (op == "d") { dumpCoopExp(exp, o); for (auto & m : models) dumpCoopModel(*m, o); }
+        else if (op == "cm") { bool flag = c.nextSize() != 0; models.emplace_back(std::make_unique<fm::CooperativeMaximumLikelihoodModel>(exp, 0.9, flag)); dumpCoopModel(*models.back(), o); }
+        else if (op == "cy") { size_t k = c.nextSize(); models.at(k)->sync(); dumpCoopModel(*models[k], o); }
+        else if (op == "cp") { size_t k = c.nextSize(); auto s = readVec<af::State>(c, S.size()); auto a = readVec<af::Action>(c, A.size());
+                               models.at(k)->sync(s, a); dumpCoopModel(*models[k], o); }
+        else if (op == "ci") { size_t k = c.nextSize(); models.at(k)->sync(last); dumpCoopModel(*models[k], o); }
+        else throw std::logic_error("unknown op " + op);
+    }
+}
+
 int main(int argc, char ** argv) {
     return vio::runCases(argc, argv, [](vio::Cursor & c, vio::Out & o) {
         const std::string kind = c.next();
@@ -106,6 +174,7 @@ int main(int argc, char ** argv) {
             else if (ek == "S") runMdp<MDP::SparseExperience>(c, o);
             else if (ek == "N") runMdp<PlainExp>(c, o);
             else throw std::logic_error("unknown experience kind " + ek);
+        } else if (kind == "coop") { runCoop(c, o);
         } else if (kind == "svt") {     // S A table[a][s][s1] : setVisitsTable on a used experience
             const size_t S = c.nextSize(), A = c.nextSize();
             MDP::Experience exp(S, A);
